@@ -126,7 +126,8 @@ def assumptions(prop_module, names, allow):
             cur = ln[4:].strip()
             rep[cur] = []
         elif cur and ln.strip() and not ln.startswith("Closed under") and not ln.startswith("Axioms:"):
-            m = re.match(r"\s*([\w.']+)\s*:", ln)
+            # an axiom entry starts at column 0 with its qualified name; its type may continue on indented lines
+            m = re.match(r"([A-Za-z_][\w.']*)\s*(:|$)", ln)
             if m:
                 rep[cur].append(m.group(1))
     bad = []
